@@ -1,7 +1,7 @@
 (* C05 -- expressions group by Go's operator precedence and associativity.
    The binding-power table (symbols, negate_rbp ...) is REGENERATED from
    /repo/symbol.go by tools/go2v on every run. *)
-From Coq Require Import ZArith List String Bool.
+From Coq Require Import ZArith List String Bool Lia.
 From GV Require Import GoSpec.GoPrec Model.Pratt Model.PrattInst Gen.Tables_gen.
 Import ListNotations.
 Open Scope string_scope.
@@ -24,3 +24,50 @@ Proof.
   apply eqb_prop in H. rewrite <- !Z.ltb_lt. rewrite H. tauto.
 Qed.
 Print Assumptions c05_table_order.
+
+From GV Require Import Proofs.C05_pratt Proofs.C05_inst.
+
+(* the Pratt loop, for ANY binding-power table meeting the stated conditions, and token lists of any
+   length: whatever it returns flattens back to the input and is grouped by the table's order *)
+Theorem c05_pratt_sound : forall lbp infix neg_rbp compl_rbp not_rbp paren_rbp,
+  (forall s, infix s = true -> 0 < lbp s) ->
+  (forall s, infix s = true -> lbp s <= neg_rbp /\ lbp s <= compl_rbp /\ lbp s <= not_rbp) ->
+  forall fuel rbp ts t rest, 0 <= rbp ->
+  Pratt.expr lbp infix neg_rbp compl_rbp not_rbp paren_rbp fuel rbp ts = inl (t, rest) ->
+  (flatten t ++ rest)%list = ts /\ grouped lbp t /\ ops_ok infix t = true /\
+  (forall p, root_prec lbp t = Some p -> rbp < p) /\ cur_lbp lbp rest <= rbp.
+Proof. exact pratt_sound. Qed.
+Print Assumptions c05_pratt_sound.
+
+(* goatlang's parser (Pratt loop + the table regenerated from symbol.go): the tree returned for a whole
+   token list IS the Go grouping of that list -- five precedence levels, left-to-right association
+   within a level, unary operators tighter than any binary operator, parentheses overriding *)
+Theorem c05_grouping : forall ts t, goat_parse ts = inl (t, []) ->
+  flatten t = ts /\ grouped go_prec t /\ ops_ok is_binop t = true.
+Proof. exact (grouping_sound c05_table). Qed.
+Print Assumptions c05_grouping.
+
+(* and every Go-grouped expression is accepted and returned unchanged (no expression of the core is
+   rejected or regrouped), for any size *)
+Theorem c05_complete : forall t, grouped go_prec t -> ops_ok is_binop t = true ->
+  goat_parse (flatten t) = inl (t, []).
+Proof. exact (grouping_complete c05_table). Qed.
+Print Assumptions c05_complete.
+
+(* the specification is unambiguous: a token list has at most one Go grouping *)
+Theorem c05_unique : forall t1 t2, grouped go_prec t1 -> ops_ok is_binop t1 = true ->
+  grouped go_prec t2 -> ops_ok is_binop t2 = true -> flatten t1 = flatten t2 -> t1 = t2.
+Proof. exact (grouping_unique_go c05_table). Qed.
+Print Assumptions c05_unique.
+
+(* non-vacuity: 1<<3 - 1 and !a == b group as Go groups them *)
+Example c05_witness :
+  goat_parse [TAtom true "1"; TSym "<<"; TAtom true "3"; TSym "-"; TAtom true "1"]
+    = inl (Bin "-" (Bin "<<" (Atom true "1") (Atom true "3")) (Atom true "1"), []) /\
+  goat_parse [TSym "!"; TAtom false "a"; TSym "=="; TAtom false "b"]
+    = inl (Bin "==" (Un UNot (Atom false "a")) (Atom false "b"), []) /\
+  grouped go_prec (Bin "-" (Bin "<<" (Atom true "1") (Atom true "3")) (Atom true "1")).
+Proof.
+  split; [vm_compute; reflexivity|]. split; [vm_compute; reflexivity|].
+  cbn. repeat split; try lia; intros p H; inversion H; try lia.
+Qed.
